@@ -27,3 +27,9 @@ package types
 // (a height of another implementation makes Compare panic; only clienttypes.Height implements exported.Height)
 // verif:func (Height).Compare
 //@ ensures [lexicographic] result == ite(h.RevisionNumber != as(other, Height).RevisionNumber, ite(h.RevisionNumber < as(other, Height).RevisionNumber, -1, 1), ite(h.RevisionHeight < as(other, Height).RevisionHeight, -1, ite(h.RevisionHeight == as(other, Height).RevisionHeight, 0, 1)))
+
+// the revision number encoded in a chain id: a deterministic function of the string (regexp + ParseUint).
+// It panics for a revision-format id whose numeric suffix exceeds uint64; on the paths outside transaction
+// recovery it is applied to this chain's own id only (GetSelfHeight), which is fixed at genesis (assumed well-formed).
+// verif:func ParseChainID
+//@ pure
